@@ -89,13 +89,13 @@ func (e *Encoder) writeValue(val reflect.Value, tagType byte) error {
 		}
 		return err
 	case TagShort:
-		return writeInt16(e.w, int16(val.Int()))
+		return writeInt16(e.w, int16(intOf(val)))
 	case TagInt:
-		return writeInt32(e.w, int32(val.Int()))
+		return writeInt32(e.w, int32(intOf(val)))
 	case TagFloat:
 		return writeInt32(e.w, int32(math.Float32bits(float32(val.Float()))))
 	case TagLong:
-		return writeInt64(e.w, val.Int())
+		return writeInt64(e.w, intOf(val))
 	case TagDouble:
 		return writeInt64(e.w, int64(math.Float64bits(val.Float())))
 	case TagByteArray, TagIntArray, TagLongArray:
@@ -294,6 +294,14 @@ func (e *Encoder) writeValue(val reflect.Value, tagType byte) error {
 		return err
 	}
 	return nil
+}
+
+// intOf returns the bits of a signed or unsigned integer value
+func intOf(val reflect.Value) int64 {
+	if val.CanUint() {
+		return int64(val.Uint())
+	}
+	return val.Int()
 }
 
 func getTagType(v reflect.Value) (byte, reflect.Value) {
